@@ -7,7 +7,7 @@
    every genetic scheme, operator set, stop criterion and seed.  `shown multi seen` are the
    hypotheses of C08 on what an archive is shown (valid fitness values of one class, pairwise
    identical or clearly separated; single-objective: one fitness per uid). *)
-From Coq Require Import List Bool Arith QArith.
+From Coq Require Import List Bool Arith QArith Sorted.
 From GolemV Require Import Fitness.Fitness Archive.FitOrder Archive.Hof Archive.HofProofs Archive.Pareto Archive.ParetoProofs
      Evo.History Evo.Loop Evo.LoopProofs.
 Import ListNotations.
@@ -92,6 +92,48 @@ Proof. exact loop_history. Qed.
 Print Assumptions C01_history_is_C06_model.
 
 (* ---- non-vacuity ---- *)
+(* --- extension pass: consequences along the run --- *)
+
+(* multi-objective mode: the returned individuals are mutually non-dominated *)
+Theorem C01_multi_result_antichain : forall k pops,
+  shown_multi (concat (map snd pops)) -> no_evict_from k run_init pops = true ->
+  let r := optimise true k pops in
+  forall m m', In m (items (r_arch r)) -> In m' (items (r_arch r)) ->
+  f_dom (fitness m') (fitness m) = false.
+Proof. exact multi_result_antichain. Qed.
+Print Assumptions C01_multi_result_antichain.
+
+(* single-objective mode: the best-so-far never gets worse along the run: the head of the
+   archive after ANY prefix of the recorded populations is not better than the best returned *)
+Theorem C01_single_best_monotone : forall k pre post,
+  1 <= k -> shown_ok (concat (map snd (pre ++ post))) ->
+  forall h rest, items (r_arch (loop false k pre)) = h :: rest ->
+  forall best rest', items (r_arch (optimise false k (pre ++ post))) = best :: rest' ->
+  f_better (fitness h) (fitness best) = false.
+Proof. exact single_best_monotone. Qed.
+Print Assumptions C01_single_best_monotone.
+
+(* single-objective mode: exactly min(keep_n_best, number of distinct recorded individuals)
+   graphs are returned, best first *)
+Theorem C01_single_result_exact : forall k pops,
+  1 <= k -> shown_ok (concat (map snd pops)) ->
+  let r := optimise false k pops in
+  length (result r) = Nat.min k (length (nodup Nat.eq_dec (map uid (concat (map snd pops))))) /\
+  StronglySorted (fun x y => f_better (fitness y) (fitness x) = false) (items (r_arch r)).
+Proof. exact single_result_exact. Qed.
+Print Assumptions C01_single_result_exact.
+
+(* single-objective mode: the returned set is a k-best set of everything recorded: a recorded
+   individual that is not returned is not better than any returned one *)
+Theorem C01_single_result_k_best : forall k pops,
+  1 <= k -> shown_ok (concat (map snd pops)) ->
+  let r := optimise false k pops in
+  forall s, In s (concat (map snd (r_pops r))) ->
+  (forall m, In m (items (r_arch r)) -> uid m <> uid s) ->
+  forall m, In m (items (r_arch r)) -> f_better (fitness s) (fitness m) = false.
+Proof. exact single_result_k_best. Qed.
+Print Assumptions C01_single_result_k_best.
+
 Definition mk1 (u : nat) (v : Q) (g : nat) := {| uid := u; fitness := Single (Some v) []; gclass := g; ngen := None |}.
 Definition ex_pops1 : list (label * list indiv) :=
   [(LInitial, [mk1 1 3 0; mk1 2 2 1]); (LNone, [mk1 3 2 2; mk1 2 2 1; mk1 4 1 3]); (LNone, [mk1 5 1 4; mk1 4 1 3])].
